@@ -676,7 +676,10 @@ func TestCheck(t *testing.T) {
 					if rec.Violation(v.sig, what, v.c) {
 						continue
 					}
-					rt.Fatalf("%s", what)
+					// the fatal message must be identical on re-execution or rapid stops shrinking
+					// (encoder output and thus error texts depend on map iteration order)
+					rt.Logf("%s", what)
+					rt.Fatalf("C04 violated: %s", v.sig)
 				}
 				classify(rec, v, noopt, p.Src, map[string]any{"imports": imports, "modules": len(p.ModSrc)})
 			}
